@@ -1,0 +1,38 @@
+/*
+ * Verification facade (cargo feature `verif`, off by default).
+ *
+ * Add-only accessors that let an out-of-crate harness observe the connect and client options
+ * the AWS builder hands to the underlying client builders.  Contains no logic of its own.
+ */
+
+#![allow(missing_docs)]
+
+use crate::{AwsClientBuilder, AwsCustomAuthOptions, apply_aws_defaults};
+use gneiss_mqtt::client::config::{ConnectOptions, MqttClientOptions};
+
+/// The ConnectOptions and MqttClientOptions that `build_tokio` / `build_threaded` pass on,
+/// computed by the same private functions those entry points call.
+pub fn final_options(builder: &AwsClientBuilder) -> (ConnectOptions, MqttClientOptions) {
+    let user_connect_options =
+        if let Some(options) = &builder.connect_options {
+            options.clone()
+        } else {
+            ConnectOptions::builder().build()
+        };
+
+    let final_connect_options = builder.build_final_connect_options(user_connect_options);
+
+    let client_options =
+        if let Some(options) = &builder.client_options {
+            options.clone()
+        } else {
+            MqttClientOptions::builder().build()
+        };
+
+    (final_connect_options, apply_aws_defaults(client_options))
+}
+
+/// Username and password computed by the custom auth options builder
+pub fn custom_auth_parts(options: &AwsCustomAuthOptions) -> (String, Option<Vec<u8>>) {
+    (options.username.clone(), options.password.clone())
+}
